@@ -611,3 +611,131 @@ def f32_chunk(item):
                 rec["raise_detail"] = raised
             out.append(rec)
     return out
+
+
+# ----------------------------------------------------------------------------- derived grids (AreaDerived.tla)
+D_PANEL = [("triangular", 4, True), ("triangular", 4, False), ("gaussian", 3, True)]
+_DREF = {}
+
+
+def _panel(g):
+    import numpy as np
+
+    out = {}
+    for rule, order, ll in D_PANEL:
+        out[(rule, order, ll)] = np.asarray(g.compute_face_areas(rule, order, ll)[0], dtype=float)
+    return out
+
+
+def _dref(mesh):
+    """Fresh-source references of a mesh: panel areas, total, edge table, the dual's panel (closed meshes)."""
+    import numpy as np
+
+    if mesh["id"] not in _DREF:
+        ref = {"panel": _panel(mesh_grid(mesh["nodes"], mesh["faces"]))}
+        ref["total"] = float(mesh_grid(mesh["nodes"], mesh["faces"]).calculate_total_face_area())
+        if not mesh["soup"]:
+            ge = mesh_grid(mesh["nodes"], mesh["faces"])
+            ref["edges"] = [tuple(sorted(int(v) for v in row)) for row in np.asarray(ge.edge_node_connectivity.values)]
+        if mesh["info"]["closed"]:
+            d = mesh_grid(mesh["nodes"], mesh["faces"]).get_dual()
+            ref["dual"] = _panel(d)
+        _DREF[mesh["id"]] = ref
+    return _DREF[mesh["id"]]
+
+
+def derived_case(item):
+    """item: {"id", "mesh": {"id", "nodes", "faces", "soup", "info"}, "acts": [[act, arg]]} -> records of kinds
+    "derived" / "dual" (one per derivation) and "partition" (when the plan is a family of face selections)."""
+    import numpy as np
+
+    mesh = item["mesh"]
+    info = mesh["info"]
+    try:
+        ref = _dref(mesh)
+        exacts = [L.excess(d) for d in info["ex"]]
+        g = mesh_grid(mesh["nodes"], mesh["faces"])
+    except Exception as e:  # noqa
+        return [{"machinery": "references of mesh %s: %s: %s" % (mesh["id"], type(e).__name__, str(e)[:200])}]
+    out, totals, members = [], [], []
+    for step, (act, arg) in enumerate(item["acts"]):
+        if act == "read":
+            try:
+                if arg == "npf":
+                    _ = g.n_nodes_per_face.values
+                elif arg == "face_areas":
+                    _ = g.face_areas.values
+                elif arg == "compute_g3":
+                    g.compute_face_areas("gaussian", 3)
+                elif arg == "face_jacobian":
+                    _ = g.face_jacobian
+                elif arg == "total":
+                    g.calculate_total_face_area()
+                else:
+                    return [{"machinery": "unknown read %r" % arg}]
+            except Exception as e:  # noqa
+                return [{"machinery": "read %s on the source of %s raised: %s: %s" % (arg, item["id"], type(e).__name__, str(e)[:160])}]
+            continue
+        rid = "%s@%d:%s" % (item["id"], step + 1, arg)
+        if arg == "dual":
+            rec = {"kind": "dual", "id": rid, "mesh": mesh["id"], "sel": arg, "raised": False, "neg": False, "closed": bool(info["closed"]), "q_inv": [CAP, CAP], "tot": [CAP, CAP]}
+            try:
+                d = g.get_dual()
+                P = _panel(d)
+                fa = np.asarray(d.face_areas.values, dtype=float)
+                qs = []
+                for k, a in P.items():
+                    r0 = ref["dual"][k]
+                    qs.append([CAP, CAP] if a.shape != r0.shape else qmax(quant(float(x) - float(y), float(y)) for x, y in zip(a, r0)))
+                r0 = ref["dual"][D_PANEL[0]]
+                qs.append([CAP, CAP] if fa.shape != r0.shape else qmax(quant(float(x) - float(y), float(y)) for x, y in zip(fa, r0)))
+                rec["q_inv"] = qmax(qs)
+                rec["tot"] = quant(float(d.calculate_total_face_area()) - FOUR_PI, FOUR_PI)
+                rec["neg"] = any((not float(x) >= 0.0) for a in P.values() for x in a)
+            except Exception as e:  # noqa
+                rec["raised"] = True
+                rec["raise_detail"] = "%s: %s" % (type(e).__name__, str(e)[:160])
+            out.append(rec)
+            continue
+        exp = list(info["sels"][arg])
+        rec = {
+            "kind": "derived", "id": rid, "mesh": mesh["id"], "sel": arg, "raised": False, "neg": False, "n_face": -1,
+            "exp": exp, "exp_sizes": [info["sizes"][k] for k in exp], "npf": [], "q_inv": [CAP, CAP], "qe": [],
+        }
+        try:
+            if arg == "nodes_low":
+                d = g.isel(n_node=list(info["nodesel"][0]))
+            elif arg == "nodes_third":
+                d = g.isel(n_node=list(info["nodesel"][1]))
+            elif arg == "sides_first":
+                idx = [ref["edges"].index(tuple(sorted(s))) for s in info["sides"]]
+                d = g.isel(n_edge=sorted(idx))
+            else:
+                d = g.isel(n_face=exp)
+            rec["n_face"] = int(d.n_face)
+            rec["npf"] = [int(x) for x in np.asarray(d.n_nodes_per_face.values)]
+            P = _panel(d)
+            fa = np.asarray(d.face_areas.values, dtype=float)
+            tot = float(d.calculate_total_face_area())
+            if rec["n_face"] == len(exp):
+                qs = []
+                for k, a in P.items():
+                    qs.append(qmax(quant(float(a[j]) - float(ref["panel"][k][exp[j]]), exacts[exp[j]]) for j in range(len(exp))))
+                r0 = ref["panel"][D_PANEL[0]]
+                qs.append(qmax(quant(float(fa[j]) - float(r0[exp[j]]), exacts[exp[j]]) for j in range(len(exp))))
+                s0 = math.fsum(float(r0[k]) for k in exp)
+                qs.append(quant(tot - s0, s0))
+                rec["q_inv"] = qmax(qs)
+                a0 = P[D_PANEL[0]]
+                rec["qe"] = [[info["buckets"][exp[j]], quant(float(a0[j]) - exacts[exp[j]], exacts[exp[j]])] for j in range(len(exp))]
+            rec["neg"] = any((not float(x) >= 0.0) for a in P.values() for x in a)
+            totals.append(tot)
+            members.append(arg)
+        except Exception as e:  # noqa
+            rec["raised"] = True
+            rec["raise_detail"] = "%s: %s" % (type(e).__name__, str(e)[:160])
+        out.append(rec)
+    plan = [a[1] for a in item["acts"] if a[0] == "derive"]
+    if plan and all(p in ("evens", "odds", "low", "high", "m0", "m1", "m2", "all") for p in plan) and len(totals) == len(plan):
+        out.append({"kind": "partition", "id": item["id"] + "|partition", "mesh": mesh["id"], "members": plan, "part_q": quant(math.fsum(totals) - ref["total"], ref["total"])})
+    return out
